@@ -106,6 +106,9 @@ def corpus() -> List[str]:
     out.update({"M1.5.5", "M.5.5", "M1.2.3.4", "M1-2-3-4", "M1e2-3", "M1e-2.5", "M0.5.5L1.5.5.5.5", "M00", "M0 0 00 00", "M1,2,3,4", "M1 2 3 4 5 6", "m1 2 3 4",
                 "M1,,2", "M1,2,", "M,1,2", "M 1 2", " M1 2", "M1 2 z", "M1 2Z M3 4", "M1 2zL3 4", "M1 2 L", "L", "M", "", "  ", "1 2", "M1 2 X3 4", "Mabc", "M1 2 3", "M1",
                 "M1e", "M1e+", "M+.", "M.", "M-", "M1 2 L3 4 5", "M--1 2", "M1 2 \n L3\t4", "M1 2\nL3,4", "H1V2h3v4", "M0 0H1 2 3", "T1 2 3 4", "S1 2 3 4 5 6 7 8"})
+    # every white-space character of the grammar (space, tab, LF, CR, FF is not one) separates numbers, also where it is the only separator
+    out.update({"M0,0 L1,2\n3,4\n5,6", "H3\n4", "M1\n2", "M1\r\n2 L3\t4\n5 6", "C1 2\n3 4\n5 6", "M1 2\n\n3 4", "l1 2\t3 4\r5 6", "M1,\n2", "M1\n,2", "a1 1 0 0\n1 2 2",
+                "M1 2\n", "\nM1 2", "M 1\t2\tL\t3\t4", "v1\n-2", "M1\n.5"})
     # compact arc flags
     for flags in ("00", "01", "10", "11"):
         for sep in ("", " ", ","):
